@@ -29,6 +29,7 @@ InitSt(e) == [inc |-> <<>>,        \* sid -> current incarnation (function with 
               isopen |-> {},       \* ids whose current incarnation accepts incoming frames at the real side
               flows |-> <<>>,      \* <<dir, sid, inc>> -> flow record
               real |-> IF "consts" \in DOMAIN e THEN e.consts.real ELSE "both",   \* which side is real code
+              odd |-> 0,           \* id of the latest frame / submission addressed to an id that is not open (stray, finished, half-closed)
               reads |-> 0]
 
 Ok(s)      == [ok |-> TRUE, st |-> s, why |-> "", dev |-> "", site |-> ""]
@@ -39,6 +40,7 @@ Put(f, k, v) == [x \in DOMAIN f \cup {k} |-> IF x = k THEN v ELSE f[x]]
 Has(s, k) == k \in DOMAIN s.flows
 
 Dirs == {"c2s", "s2c"}
+Outgoing(s, dir) == (s.real = "server" /\ dir = "s2c") \/ (s.real = "client" /\ dir = "c2s")
 
 Apply(s, e) ==
     CASE e.ev = "open" ->
@@ -48,16 +50,20 @@ Apply(s, e) ==
                               !.flows = Put(Put(s.flows, <<"c2s", e.sid, i>>, NewFlow), <<"s2c", e.sid, i>>, NewFlow)])
       [] e.ev = "psh" ->
             LET k == <<e.dir, e.sid, Inc(s, e.sid)>> IN
-            IF e.sid \in s.isopen /\ Has(s, k) /\ ~s.flows[k].fin
-            THEN Ok([s EXCEPT !.flows[k].sub = @ + e.len])
-            ELSE Ok(s)                                   \* stray: must be inert (judged by later events)
+            \* incoming data needs an open id; the real side's own direction stays writable after the
+            \* peer's FIN (half-close) until that direction is finished itself
+            IF Has(s, k) /\ ~s.flows[k].fin /\ (e.sid \in s.isopen \/ Outgoing(s, e.dir))
+            THEN Ok([s EXCEPT !.flows[k].sub = @ + e.len, !.odd = IF e.sid \in s.isopen THEN @ ELSE e.sid])
+            ELSE Ok([s EXCEPT !.odd = e.sid])            \* stray: must be inert (judged by later events)
       [] e.ev = "pshres" ->
-            IF e.ok THEN Ok(s) ELSE No(s, "a submission on an open stream of a live session failed")
+            IF e.ok THEN Ok(s)
+            ELSE IF s.odd # 0 /\ e.sid # s.odd THEN No(s, "a stream was disturbed (bytes disappeared or a submission failed) after a frame or submission addressed to another id that is unknown, finished or half-closed")
+            ELSE No(s, "a submission on an open stream of a live session failed")
       [] e.ev = "fin" ->
             LET k == <<e.dir, e.sid, Inc(s, e.sid)>> IN
             IF e.sid \in s.isopen /\ Has(s, k)
             THEN Ok([s EXCEPT !.flows[k].fin = TRUE, !.isopen = @ \ {e.sid}])
-            ELSE Ok(s)                                   \* stray FIN
+            ELSE Ok([s EXCEPT !.odd = e.sid])            \* stray FIN
       [] e.ev = "read" ->
             LET k == <<e.dir, e.sid, e.inc>> IN
             IF ~Has(s, k) THEN No(s, "data or EOF on a stream that was never opened")
@@ -78,6 +84,8 @@ Apply(s, e) ==
             LET R == {<<e.readers[i][1], e.readers[i][2], e.readers[i][3]>> : i \in 1..Len(e.readers)}
                 badk == {k \in R : Has(s, k) /\ ~QuiesceOk(s.flows[k], TRUE)}
             IN  IF \E k \in R : ~Has(s, k) THEN No(s, "harness: reader of unknown flow")
+                ELSE IF s.odd # 0 /\ \E k \in badk : s.flows[k].dlv # s.flows[k].sub /\ k[2] # s.odd
+                     THEN No(s, "a stream was disturbed (bytes disappeared or a submission failed) after a frame or submission addressed to another id that is unknown, finished or half-closed")
                 ELSE IF \E k \in badk : s.flows[k].dlv # s.flows[k].sub
                      THEN No(s, "bytes submitted on an open stream were not delivered (lost or stuck)")
                 ELSE IF \E k \in badk : s.flows[k].fin /\ ~s.flows[k].eof
